@@ -70,7 +70,9 @@ class Synth:
         src_val, dst_val = 1, 2
         idw = getattr(self, "idw", None) or c.idw  # a scripted peer may use narrower ids than the configured entities
         if dev("src id"):
-            src_val = 9
+            # 9: an entity nobody knows; 3: a second remote entity the receiving entity knows (synthpop adds its entry): a PDU
+            # of ITS transaction with the same sequence number is still a PDU of another transaction
+            src_val = [9, 3][t.choose(2, "other source id")]
             notes.append("srcid")
         if dev("dst id"):
             dst_val = 7
